@@ -49,13 +49,15 @@ CLAIMED = {
  "C20": ("proof", "E2", "the mechanisms the uniform-grid search rests on, each as a contract on the real function: Space::new builds ceil(width/max) cells per axis of width width/cdim and cell (i,j,k) spans anchor + (i,j,k)*c_width on every axis (any box shape); get_cid is the row-major index, None iff out of range; add_parts bins a particle into the cell that contains it; Cell::min_distance_squared and min_distance_to_face are lower bounds (pruning is sound)",
          "A-REAL; the ring search itself (BinaryHeap bookkeeping, termination test, get_r_ring) and the bounding-sphere solvers (Welzl minimality, Epos6 containment) are NOT proved: they are covered only by bounded stand-ins on the real code (knn against brute force, spheres contain their points), labelled and never counted as proved; integer wrap-around not modelled",
          TECH + " — E2 contracts on Space::new (prefix + cell literal), Space::get_cid, the add_parts closure, Cell::{min_distance_squared, min_distance_to_face} + bounded replay through verif hooks"),
+ "C17": ("proof", "E2", "the mechanisms of the wrapping best-first search, each as a contract on the real code: a generator's key is the squared distance from the shifted query point; an envelope's key is a lower bound for every generator inside it and equals the point key for a one-point envelope; the comparator reverses the distance order (std's max-heap pops the nearest); extend_heap keys each child with its own distance under the given shift; next() expands a parent with the parent's own shift and returns a leaf with the distance and shift it was pushed with; the 3^d root images are pushed once each; the reported shift is None iff zero, else the negated query shift",
+         "A-REAL; rstar's tree invariant (envelope containment, children listed once) and BinaryHeap::pop are ASSUMED external contracts; the best-first theorem that follows from them plus the proved mechanisms (non-decreasing order, every image exactly once, self first) is NOT machine-checked: the traversal itself is covered only by a bounded stand-in on the real crate (complete candidate sequences against brute force), labelled and never counted as proved; the non-periodic route is rstar's own iterator (external)",
+         TECH + " — E2 contracts on Generator/AABB::wrapping_distance_2, the Ord impl, the extend_heap closure, the arms of next(), RTreeWrappingNearestNeighbourIter::new and the map closure + bounded replay through a verif hook"),
 }
 NA = {
  "C01": "statement is about the composition (r-tree order -> security radius -> float clipping -> tetrahedral integration) agreeing with a brute-force Voronoi cell 'up to rounding'. No contract language available here can state and discharge that: Verus has no float semantics, the real-idealised VC generator (E2) covers straight-line code only (not the looping, branching builder over a dynamic vertex set), and Kani/CBMC does not finish symbolic execution of ConvexCell::build / from_convex_cell even on one concrete cube (28 min, measured). The mechanisms it rests on are under contract piecewise in C04, C05, C10, C16, C18; the composition itself is not decided by this family of technique",
  "C02": "a global sum of floating-point volumes over all cells equals the box measure up to rounding: a whole-tessellation numerical claim that needs C01 for every cell plus a rounding analysis; no per-function contract expresses it. The axis-normalisation mechanism it names is proved under C08, the initial-cell mechanism under C04/C06",
  "C09": "schedule independence of the rayon parallel loop: Kani has no thread support, Verus would need its own permission types on code that is rayon's (external) and the extraction subset excludes rayon; what holds (closures capture only shared immutable borrows, indexed collect preserves order) is Rust's type system plus rayon's documentation, not an obligation a verifier here can discharge",
  "C14": "exactness of the signed tetrahedral decomposition for every convex cell and 'base triangles lie in the face plane' are theorems of polytope geometry evaluated in floating point and depend on global convexity of the cell (C01); 'for every downstream implementation of the integral traits' quantifies over code that does not exist in /repo. No contract within reach states it",
- "C17": "best-first traversal order and completeness over rstar's tree needs a specification of rstar's node/envelope invariants and of BinaryHeap (external, unverified code) and the traversal is iterator/pattern-heavy code outside the extraction subset; CBMC on symbolic bulk-loaded trees with 27 shifted float distances is intractable. The two mechanisms that are per-function (shift mapping, image enumeration) are proved under C06/C03",
 }
 def main():
     hooks = subprocess.run(["git", "-C", "/repo", "log", "--format=%h %s"], capture_output=True, text=True).stdout.splitlines()
